@@ -51,12 +51,21 @@ def _variants(e):
                         yield e[:i] + (x[:j] + [(item[0], v)] + x[j + 1:],) + e[i + 1:]
 
 
-def shrink(stmts, pred, budget=400):
-    """stmts: top-level statement list.  pred(stmts) -> bool must hold for the input."""
+def shrink(stmts, pred, budget=400, seconds=45.0):
+    """stmts: top-level statement list.  pred(stmts) -> bool must hold for the input.
+    Bounded by a number of candidates AND by wall time (a candidate may be a long-running program)."""
+    import time as _time
+    deadline = _time.time() + seconds
+    pred0 = pred
+
+    def pred(c):
+        if _time.time() > deadline:
+            return False
+        return pred0(c)
     cur = list(stmts)
     tries = 0
     progress = True
-    while progress and tries < budget:
+    while progress and tries < budget and _time.time() < deadline:
         progress = False
         # top-level deletions first (cheap, big wins), last statement kept
         j = 0
